@@ -17,7 +17,7 @@ def parseEp (j : Json) : Endpoint String :=
 def parseRole (j : Json) : Role String :=
   { kind := kindOf (strD j "kind"), protocols := strList j "protocols",
     endpoints := (arrD j "endpoints").map parseEp,
-    keys := (arrD j "keys").map (fun k => { use := str? k "use", cert := strD k "cert" }),
+    keys := (arrD j "keys").map (fun k => { use := str? k "use", cert := strD k "cert", nocert := (str? k "nocert").isSome }),
     reqAttrs := (arrD j "req_attrs").map (fun r => { acs := strD r "acs", name := strD r "name", required := str? r "required" }) }
 
 def parsePair (j : Json) : String × String :=
@@ -54,9 +54,17 @@ def parseFetch (j : Json) : Fetch String :=
 def srcKindOf : String → SrcKind
   | "file" => .file | "inline" => .inline | "loader" => .loader | "remote" => .remote | _ => .mdq
 
+def parseFilt (j : Json) : Filt String :=
+  { drop := strList j "drop",
+    need := match (arr? j "need").map (·.map (fun x => (asStr? x).getD "")) with
+      | some [n, v] => some (n, v)
+      | _ => none,
+    strip := (strList j "strip").map kindOf }
+
 def parseSpec (j : Json) : SrcSpec String :=
   { key := strD j "key", kind := srcKindOf (strD j "kind"), cert := boolD j "cert", chk := boolD j "chk" true,
-    fresh := natD j "fresh", fetch := parseFetch ((obj? j "fetch").getD Json.null) }
+    fresh := natD j "fresh", fetch := parseFetch ((obj? j "fetch").getD Json.null),
+    filt := (obj? j "filt").map parseFilt }
 
 def parseQuery (j : Json) : Query String :=
   let eid := strD j "eid"
@@ -126,20 +134,23 @@ def parseAns (j : Json) : Ans String :=
 def kindName : SrcKind → String
   | .file => "file" | .inline => "inline" | .loader => "loader" | .remote => "remote" | .mdq => "mdq"
 
-def entLabel (chk : Bool) (now : Int) (p2 : String) (m : EntMap String) (e : Ent String) : String :=
+def entLabel (g : Ent String → Option (Ent String)) (chk : Bool) (now : Int) (p2 : String) (m : EntMap String) (e : Ent String) : String :=
   if chk && expired now e.validUntil then "ent/expired"
   else if has m e.id then "ent/duplicate-id"
   else match prepEnt p2 e with
     | none => "ent/no-saml2-role"
     | some d =>
-      if d.roles.length < e.roles.length then
+      if (g d).isNone then "ent/filter-refused"
+      else if g d != some d then
+        (if ((g d).map (fun x => x.roles.isEmpty)).getD false then "ent/stored-filter-stripped-every-descriptor" else "ent/stored-filter-rewritten")
+      else if d.roles.length < e.roles.length then
         (if e.roles.any (fun r => !saml2 p2 r && d.roles.any (fun r' => decide (r'.kind = r.kind)))
          then "ent/stored-non-saml2-sibling-role-dropped" else "ent/stored-some-roles-dropped")
       else "ent/stored"
 
-def entLabels (chk : Bool) (now : Int) (p2 : String) : EntMap String → List (Ent String) → List String
+def entLabels (g : Ent String → Option (Ent String)) (chk : Bool) (now : Int) (p2 : String) : EntMap String → List (Ent String) → List String
   | _, [] => []
-  | m, e :: rest => entLabel chk now p2 m e :: entLabels chk now p2 (doEntity chk now p2 m e) rest
+  | m, e :: rest => entLabel g chk now p2 m e :: entLabels g chk now p2 (doEntityF g chk now p2 m e) rest
 
 def sigLabel (k : SrcKind) (cert : Bool) (s : Sig) : String :=
   if !cert then "sig/no-cert"
@@ -149,11 +160,11 @@ def sigLabel (k : SrcKind) (cert : Bool) (s : Sig) : String :=
     | .tampered => "sig/tampered"
     | .wrongKey => "sig/wrong-key"
 
-def docLabels (chk : Bool) (now : Int) (p2 : String) (m : EntMap String) (k : SrcKind) (cert : Bool) (d : Doc String) : List String :=
+def docLabels (g : Ent String → Option (Ent String)) (chk : Bool) (now : Int) (p2 : String) (m : EntMap String) (k : SrcKind) (cert : Bool) (d : Doc String) : List String :=
   if d.group && chk && expired now d.validUntil then ["doc/group-too-old"]
   else
     (if d.group then ["doc/group"] else ["doc/single"]) ++
-    entLabels chk now p2 m (if d.group then d.entities else d.entities.take 1) ++ [sigLabel k cert d.sig]
+    entLabels g chk now p2 m (if d.group then d.entities else d.entities.take 1) ++ [sigLabel k cert d.sig]
 
 def loadLabels (p2 : String) (now : Int) (sp : SrcSpec String) : List String :=
   let res := match loadSource Policy.code p2 now sp with
@@ -166,7 +177,10 @@ def loadLabels (p2 : String) (now : Int) (sp : SrcSpec String) : List String :=
   (match sp.kind, sp.fetch with
    | .loader, _ => []
    | .mdq, _ => []
-   | k, .doc d => docLabels sp.chk now p2 [] k (effCert k sp.cert) d
+   | k, .doc d =>
+     (match sp.filt with
+      | none => docLabels some sp.chk now p2 [] k (effCert k sp.cert) d
+      | some f => "load/with-filter" :: docLabels (applyFilt f) sp.chk now p2 [] k (effCert k sp.cert) d)
    | _, _ => [])
 
 /-- labels of the specs `imp` actually reaches (it stops at the first failure) -/
@@ -190,7 +204,7 @@ def mdqLabels (env : Env String) (st : Store String) (eid : String) : List Strin
           match parseDoc s.chk env.now env.c.p2 s.entities d with
           | .error _ => ["mdq/fetch-too-old"]
           | .ok m =>
-            docLabels s.chk env.now env.c.p2 (erase s.entities eid) .mdq s.cert d ++
+            docLabels some s.chk env.now env.c.p2 (erase s.entities eid) .mdq s.cert d ++
             (if checkSig Policy.code .mdq s.cert d.sig then
                (if (lookup m eid).isSome then ["mdq/fetch-ok"] else ["mdq/fetch-ok-entity-absent"])
              else ["mdq/fetch-signature-error"])
